@@ -54,6 +54,12 @@ def one(pid, k, src):
         if rel != os.path.join("_seed", str(k)):
             os.makedirs(os.path.join(wt, rel), exist_ok=True)
             shutil.copy(demo, os.path.join(wt, rel, "demo.py"))
+        # helper modules the demos of one round share (e.g. _seed6/common.py): next to the round directories, and kept with the seed
+        helpers = [h for h in glob.glob(os.path.join(os.path.dirname(os.path.dirname(demo)), "*.py"))]
+        for h in helpers:
+            for d_ in {os.path.join(wt, "_seed"), os.path.join(wt, os.path.dirname(rel))}:
+                os.makedirs(d_, exist_ok=True)
+                shutil.copy(h, os.path.join(d_, os.path.basename(h)))
         env = {"PYTHONPATH": wt, "MPLBACKEND": "Agg"}
         democmd = "%s _seed/%s/demo.py" % (PY, k)
         rc0, o0 = sh(democmd, cwd=wt, env=env, timeout=900)
@@ -77,6 +83,8 @@ def one(pid, k, src):
         os.makedirs(dst, exist_ok=True)
         shutil.copy(patch, os.path.join(dst, "patch.diff"))
         shutil.copy(demo, os.path.join(dst, "demo.py"))
+        for h in helpers:
+            shutil.copy(h, os.path.join(dst, "helper_" + os.path.basename(h)))       # (the demo imports it from its parent directory)
         notes = ""
         if os.path.exists(os.path.join(src, "notes.md")):
             shutil.copy(os.path.join(src, "notes.md"), os.path.join(dst, "notes.md"))
